@@ -27,6 +27,7 @@ CHECK_FLAGS = ['--bounds-check', '--pointer-check', '--pointer-overflow-check', 
 
 CONTRACT_CLASSES = ('postcondition', 'precondition', 'assertion', 'loop_invariant_base', 'loop_invariant_step',
                     'loop_decreases', 'loop_assigns', 'loop_step_unwinding', 'assigns')
+SPLIT_ALONE = ('postcondition', 'precondition', 'assertion', 'loop_invariant_base', 'loop_invariant_step', 'loop_decreases')
 
 
 class Undecided(Exception):
@@ -394,6 +395,8 @@ def decide_task(unit, task, scratch, tag, tier, want_trace=True):
     solver_of = {}
     secs = {}
     T = task.get('timeout', 240 if tier == 'quick' else 900)
+    if os.environ.get('CVS_TIMEOUT'):
+        T = int(os.environ['CVS_TIMEOUT'])
     fp = task.get('fp', False)
     pool = cf.ThreadPoolExecutor(max_workers=NCPU)
 
@@ -427,8 +430,10 @@ def decide_task(unit, task, scratch, tag, tier, want_trace=True):
         pending = [n for n in names if status.get(n) not in ('SUCCESS', 'FAILURE')]
     if pending:
         # split: contract-class obligations one per run, safety obligations in chunks
-        cc = [n for n in pending if is_contract_class(n)]
-        sf = [n for n in pending if not is_contract_class(n)]
+        cc = [n for n in pending if prop_class(n) in SPLIT_ALONE and not n.startswith('__CPROVER')]
+        sf = [n for n in pending if n not in set(cc)]
+        if os.environ.get('CVS_NOSPLIT') or len(cc) > 40:
+            cc, sf = [], []
         jobs = []
         for n in cc:
             for sv in solvers:
